@@ -53,6 +53,34 @@ fn judge_trace(trace: &[Event], mode: &Mode, which: &str) -> Result<(usize, usiz
 pub fn judge(c: &SessionCase, ev: &mut Local) -> Result<(), Fail> {
     let mode = c.mode();
     let stream = c.stream();
+    // The stream is walked by announced sizes, independently of the crate: complete 4-byte frames [size, 3, 0, 0] are the
+    // keep-alives. A frame that announces more than 4 bytes but starts with the keep-alive header is no packet LFS sends;
+    // whether a lenient decoder takes it for a keep-alive is not C07's subject, such histories are left to C05.
+    let mut expected = 0;
+    {
+        let mut pos = 0;
+        while pos + 4 <= stream.len() {
+            let announced = match mode {
+                Mode::Compressed => stream[pos] as usize * 4,
+                Mode::Uncompressed => stream[pos] as usize,
+            };
+            if announced < 4 {
+                break;
+            }
+            let header = stream[pos + 1] == 3 && stream[pos + 2] == 0 && stream[pos + 3] == 0;
+            if header && announced > 4 {
+                ev.class("skipped: oversized frame with a keep-alive header");
+                return Ok(());
+            }
+            if pos + announced > stream.len() {
+                break;
+            }
+            if header {
+                expected += 1;
+            }
+            pos += announced;
+        }
+    }
     let max_reads = boundaries(&stream, &mode).len() + c.steps.len() + 6;
     let b = run_blocking(&mode, c.verify, c.steps.clone(), c.writes.clone(), max_reads);
     if let Some(p) = &b.panic {
@@ -64,15 +92,6 @@ pub fn judge(c: &SessionCase, ev: &mut Local) -> Result<(), Fail> {
     }
     let (kb, ob) = judge_trace(&b.trace, &mode, "blocking")?;
     let (kt, _) = judge_trace(&t.trace, &mode, "tokio")?;
-    // how many keep-alives does the stream really contain? (independent count over the bytes)
-    let mut expected = 0;
-    let mut pos = 0;
-    for e in boundaries(&stream, &mode) {
-        if e - pos == 4 && e <= stream.len() && stream[pos + 1] == 3 && stream[pos + 2] == 0 && stream[pos + 3] == 0 {
-            expected += 1;
-        }
-        pos = e;
-    }
     ensure!(kb == expected && kt == expected, "c07:keepalive-count", "stream holds {expected} keep-alives, blocking delivered {kb}, tokio {kt}");
     let expected_out: Vec<u8> = (0..expected).flat_map(|_| vec![size_byte(&mode, 4), 3, 0, 0]).collect();
     ensure!(b.written == expected_out, "c07:total-bytes-written", "blocking wrote {} for {expected} keep-alives", hex(&b.written));
